@@ -1407,10 +1407,16 @@ static jbl_visitor_cmd_t _jbl_get_visitor(
 
 bool _jbl_at(struct jbl *jbl, struct jbl_ptr *jp, struct jbl *res) {
   if (jp->cnt == 0) {
+    if (jbl->bn.writable && jbl->bn.dirty) {
+      binn_save_header(&jbl->bn);
+    }
     memcpy(&res->bn, &jbl->bn, sizeof(res->bn));
     res->node = 0;
     res->bn.allocated = 0;
     res->bn.freefn = 0;
+    // The result is a read-only view of the source document: destroying it must not release the source buffer
+    res->bn.writable = 0;
+    res->bn.userdata_freefn = 0;
     return true;
   }
   struct jbl_vctx vctx = {
@@ -1427,10 +1433,16 @@ iwrc jbl_at2(struct jbl *jbl, struct jbl_ptr *jp, struct jbl **res) {
   if (jp->cnt == 0) {
     struct jbl *rv;
     RCRA(rv = malloc(sizeof(struct jbl)));
+    if (jbl->bn.writable && jbl->bn.dirty) {
+      binn_save_header(&jbl->bn);
+    }
     memcpy(&rv->bn, &jbl->bn, sizeof(rv->bn));
     rv->node = 0;
     rv->bn.allocated = 0;
     rv->bn.freefn = 0;
+    // The result is a read-only view of the source document: destroying it must not release the source buffer
+    rv->bn.writable = 0;
+    rv->bn.userdata_freefn = 0;
     *res = rv;
     return 0;
   }
